@@ -218,12 +218,14 @@ def firstSome {α} (f : α → Option String) : List α → Option String
     | some s => some s
     | none => firstSome f l
 
-/-- every destination: the full dump lists exactly its eligible paths, ranked -/
-def clauseDest (x : Ctx) (m : NhMap) (fo : FamObs) (d : Net × List DEntry) : Option String :=
+/-- every destination: the full dump lists exactly its eligible paths, ranked.  A family whose route
+    selection is deferred (`dfr`) has selected nothing yet: no path of it need be listed, but what is
+    listed is judged all the same -/
+def clauseDest (x : Ctx) (m : NhMap) (dfr : Bool) (fo : FamObs) (d : Net × List DEntry) : Option String :=
   let elig := eligibleOf x m fo.fam d.1 d.2
   match fo.loc.find? (fun l => l.net = d.1) with
   | some l => checkRanking x d.1 elig l.paths l.ecmp true
-  | none => if elig.isEmpty then none else some "eligible-path-missing"
+  | none => if elig.isEmpty || dfr then none else some "eligible-path-missing"
 
 /-- the add-path lists (N = 2, 3) are prefixes of the same ranking -/
 def clauseLoc (fo : FamObs) (l : LocObs) : Option String :=
@@ -234,14 +236,16 @@ def clauseLoc (fo : FamObs) (l : LocObs) : Option String :=
 
 /-- "shown by the API", ListPath of the global table without filtered paths: the usable paths appear
     in the order of the ranking -/
-def clauseShown (x : Ctx) (m : NhMap) (fo : FamObs) (d : Net × List DEntry) : Option String :=
+def clauseShown (x : Ctx) (m : NhMap) (dfr : Bool) (fo : FamObs) (d : Net × List DEntry) : Option String :=
   let shown : List (Nat × Nat) := eligibleOf x m fo.fam d.1 (optList (lookupNet d.1 fo.nofilt))
   let ranking : List (Nat × Nat) := match fo.loc.find? (fun l => l.net = d.1) with
     | some l => l.paths.map fun p => (p.src, p.attr)
     | none => []
   -- without `enable_filtered` exactly the paths that passed import policy are listed, in list order
   if optList (lookupNet d.1 fo.nofilt) != d.2.filter (fun e => !e.filtered) then some "api-list-is-not-the-unfiltered-paths"
-  else if shown == ranking then none else some "api-list-order-differs-from-ranking"
+  -- (while route selection is deferred there is no ranking to compare with; the list order is
+  -- judged when the deferral ends, which does not reorder anything)
+  else if dfr || shown == ranking then none else some "api-list-order-differs-from-ranking"
 
 def isRsClient (c : Case) (src : Nat) : Bool :=
   match c.srcs[src]? with
@@ -272,10 +276,10 @@ def clauseAdjIn (x : Ctx) (peer : Nat) (shown : List (Net × List DEntry)) (d : 
   if optList (lookupNet d.1 shown) = d.2.filter (fun e => addrOfSrc x.c e.src == peer) then none
   else some "adj-in-view-differs"
 
-def checkFam (x : Ctx) (m : NhMap) (fo : FamObs) : Option String :=
-  (firstSome (clauseDest x m fo) fo.dests).orElse fun _ =>
+def checkFam (x : Ctx) (m : NhMap) (dfr : Bool) (fo : FamObs) : Option String :=
+  (firstSome (clauseDest x m dfr fo) fo.dests).orElse fun _ =>
   (firstSome (clauseLoc fo) fo.loc).orElse fun _ =>
-  (firstSome (clauseShown x m fo) fo.dests).orElse fun _ =>
+  (firstSome (clauseShown x m dfr fo) fo.dests).orElse fun _ =>
   (firstSome (fun (v : Nat × List (Net × DEntry)) => firstSome (clauseRsLocal x m fo v.1 v.2) fo.dests) fo.rsLocal).orElse fun _ =>
   (firstSome (fun (v : Nat × List (Net × List DEntry)) => firstSome (clauseAdjIn x v.1 v.2) fo.dests) fo.adjIn)
 
@@ -284,25 +288,32 @@ def changesOf : ResObs → List ChangeObs
   | .chs cs => cs
   | _ => []
 
-def checkStep (c : Case) (m : NhMap) (s : StepObs) : Option String :=
+/-- the families whose route selection is deferred, folded from the operations -/
+def dfStep (df : List Fam) : Op → List Fam
+  | .startDeferral f => f :: df.filter (· != f)
+  | .endDeferral f => df.filter (· != f)
+  | _ => df
+
+def checkStep (c : Case) (m : NhMap) (df : List Fam) (s : StepObs) : Option String :=
   let x : Ctx := { c, stale := s.stale, llgr := s.llgr }
   (firstSome (checkChange x m s.fams) (changesOf s.res)).orElse fun _ =>
-  firstSome (checkFam x m) s.fams
+  firstSome (fun fo => checkFam x m (df.contains fo.fam) fo) s.fams
 
-def checkSteps (c : Case) : Nat → NhMap → SpecRef.RefSt → List Op → List StepObs → Verdict
-  | _, _, _, _, [] => .ok
-  | _, _, _, [], _ :: _ => .ok
-  | i, m, rs, op :: ops, s :: ss =>
+def checkSteps (c : Case) : Nat → NhMap → List Fam → SpecRef.RefSt → List Op → List StepObs → Verdict
+  | _, _, _, _, _, [] => .ok
+  | _, _, _, _, [], _ :: _ => .ok
+  | i, m, df, rs, op :: ops, s :: ss =>
       let m' := nhStep m op s.res
+      let df' := dfStep df op
       let rs' := SpecRef.refStep c rs op s.res
       -- the dump agrees with the reference path set folded from the operations
-      match (SpecRef.check c rs' s).orElse fun _ => checkStep c m' s with
+      match (SpecRef.check c rs' s).orElse fun _ => checkStep c m' df' s with
       | some cl => .fail i cl
-      | none => checkSteps c (i + 1) m' rs' ops ss
+      | none => checkSteps c (i + 1) m' df' rs' ops ss
 
 /-- The C02 reference checker. -/
 def check (c : Case) (o : Obs) : Verdict :=
-  match checkSteps c 0 [] {} c.ops o.steps with
+  match checkSteps c 0 [] [] {} c.ops o.steps with
   | .fail i cl => .fail i cl
   | .ok =>
       if o.panicked then .fail o.steps.length "panic"
